@@ -206,6 +206,7 @@ type FuncVerifier struct {
 	allocTerms     map[string]bool
 	epochAlloc     map[int]Term    // per heap epoch: the allocation set bounding what its field arrays reference
 	stores         map[string]storeInfo // field arrays built by writeField (by term): the array and cell stored into
+	framedLits     map[*ast.FuncLit]bool // literals returned by a function with a `preserves` frame: the frame is proved on them too
 	dryRun         int // >0 while a loop body is executed only to summarise it (autoIterInvariant)
 }
 
